@@ -575,3 +575,27 @@ func (sc *ScriptedClient) PeekProxyResp(name string) (*msg.NewProxyResp, int) {
 	}
 	return l[len(l)-1], len(l)
 }
+
+// HTTPKeepAliveWork serves any number of HTTP/1.1 requests on one work connection
+// (keep-alive), each answered 200 with header X-Owner and body "<tag>:<proxyname>":
+// lets the vhost reverse proxy pool and reuse connections to this backend.
+func HTTPKeepAliveWork(tag string) func(*ScriptedClient, net.Conn, *msg.StartWorkConn) {
+	return func(_ *ScriptedClient, wc net.Conn, s *msg.StartWorkConn) {
+		defer wc.Close()
+		br := bufio.NewReader(wc)
+		for {
+			req, err := http.ReadRequest(br)
+			if err != nil {
+				return
+			}
+			if req.Body != nil {
+				_, _ = io.Copy(io.Discard, req.Body)
+				req.Body.Close()
+			}
+			body := tag + ":" + s.ProxyName
+			if _, err := fmt.Fprintf(wc, "HTTP/1.1 200 OK\r\nContent-Length: %d\r\nX-Owner: %s\r\nX-Seen-Host: %s\r\n\r\n%s", len(body), body, req.Host, body); err != nil {
+				return
+			}
+		}
+	}
+}
